@@ -9,6 +9,7 @@ CONSTANTS
   AsFound_DecorativeExcluded = TRUE
   AsFound_TimeAxisFrozen = FALSE
   AsFound_AcceptanceUsesStepTolerance = FALSE
+  AsFound_ShortHorizonNotCompared = FALSE
 INVARIANT TypeOK
 INVARIANT C15_AcceptedIsSteady
 INVARIANT C15_JudgesExactlyNonExcluded
